@@ -126,6 +126,21 @@ theorem exposure_snapshot_lookup_only {l : List PExp} (oc : Nat) (ov m : Dec) (m
   rw [this]
   rfl
 
+/-- C15.b  `fulfillmentMap` (Go: `map[uint64]fulfillmentItem`, model: the association list `fmap`) is read through
+    `FInfo.item` only, i.e. by participation index: with pairwise different indices the item found does not depend
+    on the order of the list. Hypotheses: `hp : f.fmap ~ l`, `hn : (f.fmap.map (·.1)).Nodup`. -/
+theorem fulfillment_map_item_perm (f : FInfo) (l : List (Nat × Part × PExp)) (hp : f.fmap.Perm l)
+    (hn : (f.fmap.map (·.1)).Nodup) (i : Nat) : FInfo.item { f with fmap := l } i = f.item i := by
+  unfold FInfo.item
+  have : l.find? (fun x => x.1 == i) = f.fmap.find? (fun x => x.1 == i) := by
+    symm
+    apply find?_congr_of_unique _ (fun x => hp.mem_iff)
+    intro x hx y hy hpx hpy
+    apply eq_of_key_eq_of_nodup (·.1) f.fmap hn x hx y hy
+    simp only [beq_iff_eq] at hpx hpy
+    simp only [hpx, hpy]
+  simp only [this]
+
 /-- the uniqueness hypothesis is satisfiable: the exposures a book gets from two participations on two outcomes -/
 example :
     let b : Book := [1000, 500].foldl (fun (b : Book) (l : Int) => (b.addParticipation 1 l 0).1) (newBook 1 [11, 12])
